@@ -429,10 +429,11 @@ def groups_for(tag, tier):
         dom = "counter = %d*q + fill for every q with counter < 2^%d (the standard's domain: < 2^%d message bits)" % (
             blk, 61 if w == 32 else 125, 64 if w == 32 else 128)
         fu = fills_for(blk)
+        dom_u = "counter = %d*q + fill for EVERY q (all 2^%d counter values with that fill)" % (blk, 2 * w)
         for part in chunks(fu, 16):
             G.append(("step:%s.update[fill=%s]" % (tag, rng_txt(part)),
                       "%s; fill levels %s; input lengths relative to the free room r: 0,1,r-1,r,r+1,r+block,r+block+1%s; %s and input byte"
-                      % (dom, ",".join(map(str, part)), " (+6 more)" if thorough else "", every_txt),
+                      % (dom_u, ",".join(map(str, part)), " (+6 more)" if thorough else "", every_txt),
                       "update from an arbitrary context == FIPS 180-4 chaining over pending||input: chaining value, pending bytes, "
                       "counter + n (mod 2^%d); compression uninterpreted" % (2 * w),
                       [Case(tag, "update", "drv_%s_st_upd" % tag, fill=f, n=n) for f in part
@@ -479,7 +480,7 @@ def groups_for(tag, tier):
     ptrs = fills_for(rate)
     dom = "every Keccak state (25 lanes symbolic)"
     if tag in SHA3_TY:
-        for part in chunks(ptrs, 12):
+        for part in chunks(ptrs, 24):
             G.append(("step:%s.update[ptr=%s]" % (tag, rng_txt(part)),
                       "%s; block positions %s; input lengths relative to the free room r: 0,1,r-1,r,r+1,r+rate,r+rate+1%s; every input byte"
                       % (dom, ",".join(map(str, part)), " (+6 more)" if thorough else ""),
@@ -491,7 +492,7 @@ def groups_for(tag, tier):
                       "the context is the initial one afterwards" % dl,
                       [Case(tag, "final", "drv_%s_st_fin" % tag, fill=f) for f in part]))
         return G
-    for part in chunks(ptrs, 12):
+    for part in chunks(ptrs, 24):
         G.append(("step:%s.inject[ptr=%s]" % (tag, rng_txt(part)),
                   "%s; block positions %s; input lengths relative to the free room r: 0,1,r-1,r,r+1,r+rate,r+rate+1%s; every input byte"
                   % (dom, ",".join(map(str, part)), " (+6 more)" if thorough else ""),
@@ -501,7 +502,7 @@ def groups_for(tag, tier):
               "flip from an arbitrary absorbing context == suffix 1111 + pad10*1 XORed in, squeezing position = rate, flipped",
               [Case(tag, "flip", "drv_%s_st_flip" % tag, fill=f) for f in range(rate)]))
     eptrs = sorted(set(ptrs) | {rate})
-    for part in chunks(eptrs, 12):
+    for part in chunks(eptrs, 24):
         G.append(("step:%s.extract[ptr=%s]" % (tag, rng_txt(part)),
                   "%s; squeezing positions %s (rate = nothing delivered yet / block exhausted); output lengths relative to the rest r of the block: 0,1,r-1,r,r+1,r+rate,r+rate+1%s"
                   % (dom, ",".join(map(str, part)), " (+6 more)" if thorough else ""),
@@ -585,14 +586,16 @@ def counter_of(c, args):
 def reachable_witness(built, c, args, budget=45):
     """Independent second confirmation where feasible: a REAL message (zero bytes streamed natively
     into a fresh context in 64 KiB pieces, then the case's n input bytes) that brings a fresh context
-    to a counter with the same low 30 / 32 / 33 bits as the failing one, against hashlib fed the same
-    stream.  Only SHA-2 / BLAKE2s, totals up to 2^32+2^20 bytes, within a time budget; dict or None."""
+    to a counter with the same low 30 / 32 / 33 bits as the failing one (or to 2^29 / 2^32 + fill when
+    the failing counter is above), against hashlib fed the same stream.  Only SHA-2 / BLAKE2s, totals up to 2^32+2^20 bytes, within a time budget; dict or None."""
     tag = c.tag
     if (tag not in H.SHA2 and tag != "blake2s") or c.kind not in ("final", "update"):
         return None
     ctr = counter_of(c, args)
     cap = (1 << 32) + (1 << 20)
-    totals = sorted(set(t for t in [ctr] + [ctr & T.mask(k) for k in (30, 32, 33)] if (1 << 20) <= t <= cap))
+    fill = ctr % blk_of(tag)
+    cands = [ctr] + [ctr & T.mask(k) for k in (30, 32, 33)] + [b + fill for b in (1 << 29, 1 << 32) if ctr >= b]
+    totals = sorted(set(t for t in cands if (1 << 20) <= t <= cap))
     n = args.get("n", 0) if c.kind == "update" else 0
     tail = [(7 * i + 1) & 255 for i in range(n)]
     msg = tail + [0] * (nmsg(tag) - n)
@@ -626,6 +629,17 @@ def reachable_witness(built, c, args, budget=45):
 
 # ------------------------------------------------------------------ deciding one case
 
+def add_witness(built, c, a, env, det, wanted):
+    if not wanted:
+        return
+    try:
+        rw = reachable_witness(built, c, concrete_args(a, env))
+    except Exception as e:      # the second confirmation is optional
+        rw = {"error": str(e)[:200]}
+    if rw:
+        det["reachable_witness"] = rw
+
+
 def decide_case(ctx, c, timeout, validate=True, witness=True):
     """dict(verdict=ok|viol|unknown, how, detail, secs, hooked)"""
     from . import C17
@@ -654,9 +668,11 @@ def decide_case(ctx, c, timeout, validate=True, witness=True):
         # e.g. control flow that depends on the symbolic part of the counter (never on the unchanged
         # tree): not decidable by this executor; hunt natively over boundary contexts before giving up
         for it in range(24):
-            ok, det = native_check(built, c, a, sample_env(c, vs, r, it))
+            env = sample_env(c, vs, r, it)
+            ok, det = native_check(built, c, a, env)
             if not ok:
                 det["found_by"] = "boundary replay after executor stop (%s)" % str(e)[:120]
+                add_witness(built, c, a, env, det, witness)
                 return dict(verdict="viol", how="replay", detail=det, secs=time.time() - t0, hooked=set())
         return dict(verdict="unknown", how="exec", detail="executor: %s" % str(e)[:300], secs=time.time() - t0, hooked=set())
     exp = expected(c, a, uf=True)
@@ -703,12 +719,7 @@ def decide_case(ctx, c, timeout, validate=True, witness=True):
         ok, det = native_check(built, c, a, env)
         if not ok:
             det["found_by"] = how
-            try:
-                rw = reachable_witness(built, c, concrete_args(a, env)) if witness else None
-            except Exception as e:      # the second confirmation is optional
-                rw = {"error": str(e)[:200]}
-            if rw:
-                det["reachable_witness"] = rw
+            add_witness(built, c, a, env, det, witness)
             return dict(res, verdict="viol", how="z3-ufbv+replay", secs=time.time() - t0, solver_s=dt, detail=det)
     return dict(res, verdict="unknown", how="z3-ufbv", secs=time.time() - t0, solver_s=dt,
                 detail=("model under the uninterpreted compression function does not reproduce natively" if v == "sat" else "solver: " + v))
